@@ -1461,3 +1461,47 @@ Proof.
   - rewrite forallb_forall in H5. specialize (H5 t Hin). unfold class_iri_ok in H5.
     rewrite Htp, str_eqb_refl, Hto, Hid in H5. cbn in H5. apply negb_true_iff in H5. exact H5.
 Qed.
+
+(** C12 in all_classes mode with both thresholds <= 1: remove_empty_shapes may
+    be on (nothing is removed at the shape level), the shapes correspond one
+    to one *)
+Lemma run_shapes_raw_nonempty fa c thr g ns s :
+  run_shapes fa c thr g = inl (ns, s) ->
+  (forall ns' l, run_raw fa c thr g = inl (ns', l) -> Forall (fun sh => sh_stmts sh <> []) l) ->
+  run_raw fa c thr g = inl (ns, s).
+Proof.
+  intros H Hne. rewrite run_shapes_front in H. unfold run_raw in *.
+  destruct (full_ns c) as [ns0|]; [|discriminate].
+  destruct (front c g) as [[P C]|e]; [|discriminate].
+  unfold shex in H.
+  destruct (map_err (shex_class fa (scfg_of c ns0) thr C) P) as [l|e]; [|discriminate].
+  specialize (Hne ns0 l eq_refl).
+  destruct (x_remove_empty (scfg_of c ns0)); [|exact H].
+  rewrite clean_shapes_id in H by exact Hne. exact H.
+Qed.
+
+Theorem run_keys_monotone_all_classes c thr1 thr2 g ns1 s1 ns2 s2 :
+  r_targets c = None -> wf_frac thr1 -> wf_frac thr2 ->
+  fle BAlg thr1 thr2 = true -> fle BAlg thr2 (fone BAlg) = true ->
+  (N.of_nat (List.length g) < 2 ^ 53)%N ->
+  run_shapes BAlg c thr1 g = inl (ns1, s1) -> run_shapes BAlg c thr2 g = inl (ns2, s2) ->
+  ns1 = ns2 /\ Forall2 (keys_shrink (scfg_of c ns1)) s1 s2.
+Proof.
+  intros Hnone W1 W2 Hle Hle2 Hg R1 R2.
+  assert (Hle1 : fle BAlg thr1 (fone BAlg) = true).
+  { apply (fle_trans _ _ _ BAlg_laws thr1 thr2 (fone BAlg)); auto. apply (fone_ok _ _ _ BAlg_laws). }
+  apply run_shapes_raw_nonempty in R1;
+    [|intros ns' l; apply (run_raw_nonempty BAlg okN53 wf_frac BAlg_laws c thr1 g ns' l Hnone W1 Hle1 (okN53_of_graph g Hg))].
+  apply run_shapes_raw_nonempty in R2;
+    [|intros ns' l; apply (run_raw_nonempty BAlg okN53 wf_frac BAlg_laws c thr2 g ns' l Hnone W2 Hle2 (okN53_of_graph g Hg))].
+  unfold run_raw in R1, R2.
+  destruct (full_ns c) as [ns|]; [|discriminate].
+  destruct (front c g) as [[P C]|e] eqn:Hf; [|discriminate].
+  destruct (map_err (shex_class BAlg (scfg_of c ns) thr1 C) P) as [l1|e1] eqn:E1; [|discriminate].
+  destruct (map_err (shex_class BAlg (scfg_of c ns) thr2 C) P) as [l2|e2] eqn:E2; [|discriminate].
+  injection R1 as <- <-. injection R2 as <- <-. split; [reflexivity|].
+  apply map_err_Forall2 in E1. apply map_err_Forall2 in E2.
+  exact (pre_mono BAlg (scfg_of c ns) wf_frac okN53
+           (fun n d H => ratio_wf _ _ _ BAlg_laws n d H) (fle_trans _ _ _ BAlg_laws)
+           thr1 thr2 P C l1 l2 W1 W2 (front_counts_ok c g ns P C Hf Hg) Hle E1 E2).
+Qed.
